@@ -30,3 +30,8 @@ int fputc(int c, FILE *f) {
     (void)f;
     return putchar(c);
 }
+
+#if defined(VH_CBMC) && VH_CBMC
+/* the harness streams are valid: fileno() of a valid stream is not negative */
+int fileno(FILE *stream) { (void)stream; return 1; }
+#endif
